@@ -48,24 +48,6 @@ impl V {
         }
     }
 
-    pub fn kind(&self) -> &'static str {
-        match self {
-            V::Nil => "nil",
-            V::Null => "null",
-            V::Bool(_) => "bool",
-            V::U(_) | V::I(_) => "int",
-            V::F(_) => "float",
-            V::Char(_) => "char",
-            V::Str(_) => "string",
-            V::Sym(_) => "symbol",
-            V::Kw(_) => "keyword",
-            V::Bytes(_) => "bytes",
-            V::List(_, None) => "list",
-            V::List(_, Some(_)) => "dotted",
-            V::Vector(_) => "vector",
-        }
-    }
-
     /// Structurally smaller variants, for the shrinker.
     pub fn shrinks(&self) -> Vec<V> {
         let mut out = Vec::new();
@@ -239,9 +221,6 @@ impl ValMask {
             bits |= 1 << 3;
         }
         ValMask { bits, elisp_names, long_tokens: rng.chance(1, 12) }
-    }
-    pub fn all(elisp_names: bool) -> ValMask {
-        ValMask { bits: 0xFFF, elisp_names, long_tokens: false }
     }
     fn on(&self, k: u32) -> bool {
         self.bits & (1 << k) != 0
